@@ -43,12 +43,13 @@ Theorem C15_closed_eliminable (mt : list name) (m : model) :
 Proof. exact (closed_eliminate_vars mt m). Qed.
 Print Assumptions C15_closed_eliminable.
 
-(* cyclic eliminable assignments '_e1 = _e2; _e2 = _e1; a3 = _e1 + 1': after the iteration-limit
-   warning the only remaining unknown is a3 but the remaining equation still mentions _e1/_e2 *)
+(* cyclic eliminable assignments '_e1 = _e2; _e2 = _e1; a3 = _e1 + 1': the value loop converges
+   to the identity substitution (no warning); the only remaining unknown is a3 but the remaining
+   equation still mentions _e1 *)
 Theorem C15_closed_cyclic_refuted :
   exists (o : options) (m : model),
     let m' := simplify o m in
-    failed m' = false /\ warned m' = true /\ algs m' = [3%positive] /\
+    failed m' = false /\ warned m' = false /\ algs m' = [3%positive] /\
     existsb (fun e => occurs 1%positive e || occurs 2%positive e) (eqs m') = true.
 Proof. exists o_elim12, m_osc. exact osc_not_closed. Qed.
 Print Assumptions C15_closed_cyclic_refuted.
